@@ -12,19 +12,20 @@ Section Scope.
   Variable n0 cur0 : nat.
   Variable FV : name -> option val.
   Variable resl : list name.
+  Variable mutl : list name.
   Notation prot := (prot0 n0 resl).
   Notation ext_at := (ext_at n0 resl).
   Notation kext := (kext n0 resl).
-  Notation vrel := (vrel n0 cur0 FV resl).
-  Notation vrels := (vrels n0 cur0 FV resl).
-  Notation srel := (srel n0 cur0 FV resl).
-  Notation agree := (agree n0 cur0 FV resl).
+  Notation vrel := (vrel n0 cur0 FV resl mutl).
+  Notation vrels := (vrels n0 cur0 FV resl mutl).
+  Notation srel := (srel n0 cur0 FV resl mutl).
+  Notation agree := (agree n0 cur0 FV resl mutl).
   Notation cinv := (cinv cur0).
   Notation chain_budget := (chain_budget n0).
-  Notation vars_rel := (vars_rel n0 cur0 FV resl).
-  Notation post := (post n0 cur0 FV resl).
-  Notation fzr := (fzr FV).
-  Notation sim_at := (sim_at n0 cur0 FV resl).
+  Notation vars_rel := (vars_rel n0 cur0 FV resl mutl).
+  Notation post := (post n0 cur0 FV resl mutl).
+  Notation fzr := (fzr FV mutl).
+  Notation sim_at := (sim_at n0 cur0 FV resl mutl).
 
   Hypothesis Hcur0 : cur0 < n0.
   Implicit Types P D : name -> Prop.
@@ -111,7 +112,7 @@ Section Scope.
     pre P (DU D bud) B (fst (push_frame st p bud)) (fst (push_frame st' p bud')) (length (frames st)) bud.
   Proof.
     intros P D B st st' p bud bud' S Ag CI CH Lp PP.
-    destruct (srel_push n0 cur0 FV resl Hcur0 st st' p bud bud' S Lp) as (S1 & _ & _).
+    destruct (srel_push n0 cur0 FV resl mutl Hcur0 st st' p bud bud' S Lp) as (S1 & _ & _).
     assert (N0 : n0 <= length (frames st)) by (destruct S; auto).
     unfold push_frame in *. cbn [fst snd frames out] in *. constructor; cbn [frames out]; auto.
     - eapply agree_mono; eauto. apply kext_push.
@@ -129,7 +130,7 @@ Section Scope.
 
   (* ------------------------------------------------------------ several declarations in a frame *)
   Lemma declare_all_sim : forall bs bs' st st' fr,
-    srel st st' -> agree (frames st) -> vars_rel (frames st) bs bs' -> fr < length (frames st) ->
+    srel st st' -> agree (frames st) -> binds_rel n0 cur0 FV resl mutl (frames st) bs bs' -> fr < length (frames st) ->
     (n0 <= fr -> incl (map fst bs) (budget_at (frames st) fr)) ->
     post RTrue st fr (map fst bs) (declare_all prot st fr bs) (declare_all prot st' fr bs').
   Proof.
@@ -143,12 +144,12 @@ Section Scope.
       + intros st1 st1' [] [] E K S1 Ag1 _.
         assert (N0 : n0 <= length (frames st)) by (destruct S; auto).
         apply IH; auto.
-        * eapply vars_rel_mono; eauto.
+        * eapply binds_rel_mono; eauto.
         * destruct E. lia.
         * intros G. rewrite (kext_budget_at _ _ _ _ _ K L). intros y Hy. apply HB; auto. right; auto.
   Qed.
 
-  Lemma vars_rel_combine : forall fs ps l l', vrels fs l l' -> vars_rel fs (combine ps l) (combine ps l').
+  Lemma vars_rel_combine : forall fs ps l l', vrels fs l l' -> binds_rel n0 cur0 FV resl mutl fs (combine ps l) (combine ps l').
   Proof.
     intros fs ps l l' H. revert ps. induction H; intros [|p ps]; cbn; try constructor; auto.
     apply IHvrels.
@@ -172,17 +173,17 @@ Section Scope.
       assert (NF : post vrel st cur []
                      (if existsb is_func args then unsupported st else throw_err st)
                      (if existsb is_func args' then unsupported st' else throw_err st')).
-      { rewrite <- (vrels_existsb_func _ _ _ _ _ _ _ Ra). destruct (existsb is_func args).
+      { rewrite <- (vrels_existsb_func _ _ _ _ _ _ _ _ Ra). destruct (existsb is_func args).
         - apply post_unsupp; auto.
         - apply post_throw_err; auto. }
       inversion Rf; subst; cbn [apply_val]; auto.
       - apply prim_apply_sim; auto.
       - (* closure *)
-        rewrite <- (vrels_length _ _ _ _ _ _ _ Ra).
+        rewrite <- (vrels_length _ _ _ _ _ _ _ _ Ra).
         destruct (Nat.eqb (length ps) (length args)) eqn:LE; [|apply post_throw_err; auto].
         apply Nat.eqb_eq in LE.
         pose proof (enter_frame P D (ps ++ B) st st' fid (call_budget ps b) (call_budget ps b') S Ag H3 H2 H4 H0) as PR.
-        destruct (srel_push n0 cur0 FV resl Hcur0 st st' fid (call_budget ps b) (call_budget ps b') S H4) as (_ & F1 & F2).
+        destruct (srel_push n0 cur0 FV resl mutl Hcur0 st st' fid (call_budget ps b) (call_budget ps b') S H4) as (_ & F1 & F2).
         destruct (push_frame st fid (call_budget ps b)) as [st1 fr] eqn:P1.
         destruct (push_frame st' fid (call_budget ps b')) as [st1' fr'] eqn:P2.
         cbn [fst snd] in *. subst fr fr'.
